@@ -155,7 +155,8 @@ theorem step_preamble {b pre epi rest : Bytes} {parts : List Part} {cs : Charset
 
 theorem subContinuation_lf_cons (x : Nat) (r : Bytes) (h32 : x ≠ 32) (h9 : x ≠ 9) :
     subContinuation (10 :: x :: r) = 10 :: subContinuation (x :: r) := by
-  rw [subContinuation]
+  unfold subContinuation
+  rw [subContGo]
   simp [lbLen, h32, h9]
 
 /-- a stray LF in front of a header block (left over from the delimiter's CRLF
